@@ -5,6 +5,7 @@ use crate::ev::{viol, Report, Viol};
 use crate::geo;
 use crate::refcodec as rc;
 use crate::refgeom as rg;
+use crate::refgeom::V3;
 use crate::subj;
 use rayon::prelude::*;
 use serde_json::{json, Value};
@@ -280,6 +281,124 @@ pub fn check_cell_c02_f(c: u64, interior: bool, st: &Stats, strict_pts: &AtomicU
     out
 }
 
+/// strict-interior points of a cell as (lon, lat), classified through the real forward projection of
+/// what is actually passed to the API
+pub fn strict_interior_lonlat(c: u64, dense: bool) -> Vec<(f64, f64)> {
+    let mut out = Vec::new();
+    let (face, poly) = match geo::cell_poly(c) {
+        Ok(x) => x,
+        Err(_) => return out,
+    };
+    let diam = rg::diameter(&poly);
+    for q in geo::cell_interior_points(&poly, &interior_fractions(dense)) {
+        if let Ok(v) = subj::inverse(q, face) {
+            let (lon, lat) = rg::vec_to_ll(v);
+            if let Ok(p) = subj::forward(rg::ll_to_vec(lon, lat), face) {
+                if rg::signed_dist_convex(&poly, p) >= 1e-9 * diam + BAND {
+                    out.push((lon, lat));
+                }
+            }
+        }
+    }
+    out
+}
+
+/// Neighbourhoods (+-1.5 cell sizes) at places spread over whole faces: the grid points that lie well inside
+/// their cell (2 % of its diameter) and are not answered by their first estimate are looked up as ALL ordered
+/// pairs (p1 then p2) on one fresh thread; p2 must map back to its cell whatever was looked up before.
+pub fn cluster_pairs(tier: &str) -> (u64, u64, Vec<Viol>) {
+    let quick = tier == "quick";
+    let f = rg::frame();
+    let all_res: Vec<i32> = if quick { vec![6, 12, 27] } else { vec![4, 6, 9, 12, 16, 20, 24, 27, 29] };
+    let faces: &[usize] = if quick { &[3] } else { &[0, 3, 8, 11] };
+    let fracs: &[f64] = if quick { &[0.1, 0.4, 0.95] } else { &[0.1, 0.3, 0.5, 0.7, 0.9, 0.97] };
+    let mut jobs: Vec<(V3, i32)> = Vec::new();
+    let mut k = 0usize;
+    for &face in faces {
+        let c = f.centres[face];
+        let targets: Vec<V3> = f.vertices.iter().chain(f.midpoints.iter()).copied().filter(|v| rg::ang(*v, c) < 0.7).collect();
+        for t in &targets {
+            for &fr in fracs {
+                let p = rg::offset(rg::unit(rg::add(rg::scale(c, 1.0 - fr), rg::scale(*t, fr))), 0.013, 0.007);
+                jobs.push((p, all_res[k % all_res.len()]));
+                k += 1;
+            }
+        }
+    }
+    let cap = if quick { 150 } else { 320 };
+    let res: Vec<(u64, Vec<Viol>)> = jobs
+        .par_iter()
+        .map(|&(p, r)| {
+            // a 30 x 30 grid over +-1.5 cell sizes; a point takes part when the cell a lookup returns
+            // strictly contains it by the planar test (then that cell is THE cell of the point) and the
+            // lookup was not answered by its first estimate
+            let sz = geo::cell_size(r);
+            let g = 30usize;
+            let mut pts: Vec<(f64, f64, u64)> = Vec::new();
+            let mut polys: std::collections::HashMap<u64, (u8, Vec<rg::P2>)> = std::collections::HashMap::new();
+            for i in 0..g {
+                for j in 0..g {
+                    let x = ((i as f64 + 0.29) / g as f64 - 0.5) * 3.0 * sz;
+                    let y = ((j as f64 + 0.53) / g as f64 - 0.5) * 3.0 * sz;
+                    let (lo, la) = rg::vec_to_ll(rg::offset(p, x, y));
+                    let (res, branch) = subj::lookup_branch(lo, la, r);
+                    let c = match res {
+                        Ok(c) if rc::resolution(c) == Some(r) && branch != 1 => c,
+                        _ => continue,
+                    };
+                    let entry = polys.entry(c).or_insert_with(|| geo::cell_poly(c).unwrap_or((0, vec![])));
+                    if entry.1.is_empty() {
+                        continue;
+                    }
+                    if let Ok(q) = subj::forward(rg::ll_to_vec(lo, la), entry.0) {
+                        if rg::signed_dist_convex(&entry.1, q) >= 0.02 * rg::diameter(&entry.1) {
+                            pts.push((lo, la, c));
+                        }
+                    }
+                }
+            }
+            // spread the selection over the whole cluster
+            if pts.len() > cap {
+                let step = pts.len() as f64 / cap as f64;
+                pts = (0..cap).map(|i| pts[(i as f64 * step) as usize]).collect();
+            }
+            std::thread::scope(|sc| {
+                sc.spawn(|| {
+                    let mut out = Vec::new();
+                    let mut n = 0u64;
+                    for a in &pts {
+                        for b in &pts {
+                            let _ = subj::lookup(a.0, a.1, r);
+                            n += 1;
+                            match subj::lookup(b.0, b.1, r) {
+                                Ok(id) if id == b.2 => {}
+                                other => {
+                                    out.push(viol(
+                                        "C02/interior-after-neighbour",
+                                        format!("point ({}, {}) lies strictly inside {} but looks up to {:?} right after the lookup of ({}, {}) on the same thread (resolution {})", b.0, b.1, subj::hex(b.2), other.map(subj::hex), a.0, a.1, r),
+                                        json!({"kind": "interior_after", "id": subj::hex(b.2), "lon": b.0, "lat": b.1, "res": r, "prev_lon": a.0, "prev_lat": a.1}),
+                                    ));
+                                    return (n, out);
+                                }
+                            }
+                        }
+                    }
+                    (n, out)
+                })
+                .join()
+                .unwrap()
+            })
+        })
+        .collect();
+    let mut pairs = 0u64;
+    let mut out = Vec::new();
+    for (n, v) in res {
+        pairs += n;
+        out.extend(v);
+    }
+    (jobs.len() as u64, pairs, out)
+}
+
 pub fn run_c02(tier: &str) -> Report {
     let mut rep = Report::new("exploration");
     let st = Stats::new();
@@ -299,11 +418,15 @@ pub fn run_c02(tier: &str) -> Report {
     let special = super::cells::special_cells(if tier == "quick" { 20 } else { 8 }, 29, tier != "quick");
     let vs: Vec<Viol> = special.par_iter().flat_map(|&c| check_cell_c02(c, true, &st, &strict)).collect();
     rep.sink.extend(vs);
+    let (clusters, cluster_pair_count, vs) = cluster_pairs(tier);
+    rep.sink.extend(vs);
+    rep.set("neighbour_clusters", json!(clusters));
+    rep.set("ordered_pairs_of_interior_points_on_one_thread", json!(cluster_pair_count));
     let br = st.branches.lock().unwrap().clone();
     let hard: u64 = br.iter().filter(|(k, _)| **k > 1).map(|(_, v)| *v).sum();
-    rep.set("evaluations", json!(ncentres + fam.len() as u64 + special.len() as u64 + strict.load(Ordering::Relaxed)));
+    rep.set("evaluations", json!(ncentres + fam.len() as u64 + special.len() as u64 + strict.load(Ordering::Relaxed) + cluster_pair_count));
     rep.set("distinct_nontrivial", json!(hard));
-    rep.set("rule", json!(format!("centres of all cells r<={} ({}), 51-point strict-interior lattice (fractions 0.5..0.9999 towards every vertex and edge midpoint) of all cells r<={}, of {} family cells to r=29 and of {} pole/antimeridian cells; oracle: exact id equality; points are classified strict-interior by the real forward projection of what is actually passed to the API; distinct_nontrivial = lookups not answered by the first estimate", rc_max, ncentres, ri_max, fam.len(), special.len())));
+    rep.set("rule", json!(format!("centres of all cells r<={} ({}), 51-point strict-interior lattice (fractions 0.5..0.9999 towards every vertex and edge midpoint) of all cells r<={}, of {} family cells to r=29 and of {} pole/antimeridian cells; plus, for clusters of 16 neighbouring cells at places spread over whole faces, all ordered pairs of the interior points that miss their first estimate, each pair on one thread; oracle: exact id equality; points are classified strict-interior by the real forward projection of what is actually passed to the API; distinct_nontrivial = lookups not answered by the first estimate", rc_max, ncentres, ri_max, fam.len(), special.len())));
     rep.set("exhaustive", json!(true));
     rep.set("exhaustive_scope", json!(format!("all cells r<={} (centres), r<={} (interior lattice)", rc_max, ri_max)));
     rep.set("strict_interior_points", json!(strict.load(Ordering::Relaxed)));
@@ -317,6 +440,21 @@ pub fn replay(prop: &str, case: &Value) -> Vec<Viol> {
     let st = Stats::new();
     match (prop, case["kind"].as_str().unwrap_or("")) {
         ("C01", "lookup") => check_lookup(case["lon"].as_f64().unwrap(), case["lat"].as_f64().unwrap(), case["res"].as_i64().unwrap() as i32, &st, true),
+        ("C02", "interior_after") => {
+            let c = u64::from_str_radix(case["id"].as_str().unwrap(), 16).unwrap();
+            let (lon, lat, r) = (case["lon"].as_f64().unwrap(), case["lat"].as_f64().unwrap(), case["res"].as_i64().unwrap() as i32);
+            let (plon, plat) = (case["prev_lon"].as_f64().unwrap(), case["prev_lat"].as_f64().unwrap());
+            let case2 = case.clone();
+            std::thread::spawn(move || {
+                let _ = subj::lookup(plon, plat, r);
+                match subj::lookup(lon, lat, r) {
+                    Ok(id) if id == c => vec![],
+                    other => vec![viol("C02/interior-after-neighbour", format!("looks up to {:?} right after the lookup of the neighbour point", other.map(subj::hex)), case2)],
+                }
+            })
+            .join()
+            .unwrap()
+        }
         ("C02", _) => {
             let c = u64::from_str_radix(case["id"].as_str().unwrap(), 16).unwrap();
             check_cell_c02(c, true, &st, &AtomicU64::new(0))
